@@ -1017,6 +1017,28 @@ def simple_nodes(run, model, rule="C06.node-semantics"):
             ok = None
         if ok is not None:
             run.check(ok, rule, fi.qual, "slice(lower, upper, step)", "the slice is not built from lower, upper, step in that order: %s" % [show(t, 100) for t in rts], fi.loc())
+        if ok:
+            # a part is visited exactly when it is present: ``self.visit(node.upper)`` under ``node.upper is not None``
+            # (visiting None ends in the generic visitor's failure and replaces the violation error)
+            badg = None
+            for p_ in tables.paths(flow):
+                for ct, cn in p_.calls:
+                    va = visit_arg(ct)
+                    if va is None or va[0] != "attr" or va[1] != NODE or va[2] not in ("lower", "upper", "step"):
+                        continue
+                    if any(isinstance(x, ast.IfExp) for x in ast.walk(cn.stmt)):
+                        continue  # the conditional expression carries its own test (checked above)
+                    want = ("attr", NODE, va[2])
+                    guarded = False
+                    for t, v, n in p_.decisions:
+                        for sub in subterms(strip_sites(t)):
+                            if sub[0] == "op" and sub[1] in ("cmp:IsNot", "cmp:Is") and set(sub[2]) == set([want, ("const", "None")]):
+                                # a conjunction / plain test taken as a whole: polarity of the path decides
+                                if (sub[1] == "cmp:IsNot") == bool(v) and strip_sites(t) == sub:
+                                    guarded = True
+                    if not guarded:
+                        badg = badg or (cn, "`%s` runs on a path where `node.%s is not None` has not been established (the guard in front of it tests something else): for a slice without that part the visitor is handed None and the violation ends in the re-computation failure instead of the contract's error" % (first_line(cn.stmt), va[2]))
+            run.check(badg is None, rule, fi.qual + ":guards", "each part of the slice is visited under the test that it is present", badg[1] if badg else "", fi.loc(badg[0]) if badg else fi.loc(), None, first_line(badg[0].stmt) if badg else None)
     # NamedExpr: value of node.value, bound to the target's name for later lookups
     fi, flow, rts = ret_terms("visit_NamedExpr")
     if fi is not None:
